@@ -48,7 +48,7 @@ def registry():
     for crate in CRATES:
         for hf in harness_files(crate):
             text = open(hf).read()
-            mm = re.search(r"^mod\s+(\w+)", text, re.M)
+            mm = re.search(r"^(?:pub(?:\(crate\))? )?mod\s+(\w+)", text, re.M)
             modname = mm.group(1)
             rel = os.path.basename(hf).replace("__", "/")
             mp = mod_path(rel)
